@@ -228,6 +228,15 @@ def stepOp (d : DS) (op implObs : String) : DS × String × List String × List 
     | "remove" =>
       let id := refId d (kvNat toks "t")
       finish d (remove s id) "ok" [] [if id ∈ s.regIds then "branch:remove-live" else "branch:remove-absent"]
+    | "removeheld" =>
+      -- an add that arrives while torrent t is being removed (its registry entry is gone, the torrent itself not yet
+      -- closed): the port of t is not free yet. The generator uses this only when no port is free.
+      let id := refId d (kvNat toks "t")
+      if !s.free.isEmpty ∨ id ∉ s.regIds then finish { d with addIds := d.addIds ++ [""] } s "skipped" [] []
+      else
+        let v := if implRes.startsWith "ok" then
+            [s!"C14 port-handed-out-while-its-owner-is-still-live port={kvNat (words implRes) "port"}"] else []
+        finish { d with addIds := d.addIds ++ [""] } (remove s id) "err:noport" v ["branch:add-during-removal", "rejected"]
     | "start" =>
       let id := refId d (kvNat toks "t")
       if id ∈ s.regIds then finish d (start s id) "ok" [] ["branch:start"] else finish d s "absent" [] ["branch:absent"]
